@@ -122,7 +122,7 @@ class C03(Suite):
             if k % 2:
                 c["via_main"] = True
             yield c
-        n = 250 if tier == "quick" else 5000
+        n = 250 if tier == "quick" else 3000
         for k in range(n):
             tags = lg.rand_tags(rng, big=(tier == "thorough"))
             c = {"budget": rng.choice([488, 488, 488, 100, 24, 1000]), "tags": tags,
